@@ -3,6 +3,7 @@ package c15
 import (
 	"fmt"
 	"regexp"
+	"regexp/syntax"
 	"strings"
 	"unicode/utf8"
 )
@@ -158,6 +159,7 @@ func rxSpec(cs *Case) *spec {
 	}
 	// diagnosis only: the pattern without any flag
 	plain, _ := regexp.Compile(pat)
+	nullLoop := nullableLoop(pat)
 	sp.wantFn = func(in string, capture bool) *want {
 		w := &want{}
 		exps := make([]rxExp, len(rd))
@@ -176,29 +178,89 @@ func rxSpec(cs *Case) *spec {
 		}
 		w.text = strings.Join(desc, "; ")
 		w.class = func(o *Obs, reason string) string {
+			if bin && plain != nil {
+				// is the whole observation what the pattern gives when compiled
+				// without any flag (dot not matching newline)?
+				var pa []alt
+				for _, bytes := range []bool{true, false} {
+					e := (&rxReading{re: plain, bytes: bytes}).run(in)
+					pa = append(pa, alt{verdict: e.match, caps: e.capsAgainst})
+				}
+				if ok, _ := acceptAlts(pa, o.Capture, o); ok {
+					return "rx:binary-pattern-compiled-without-the-dotall-flag"
+				}
+			}
 			if strings.HasPrefix(reason, "capture:") {
 				r := strings.TrimPrefix(reason, "capture:")
+				if bin && nullLoop && r != "group-9-not-stored" {
+					return "rx:binary-pattern:loop-over-nullable-body-not-matched-like-RE2"
+				}
 				if r == "group-9-not-stored" {
 					return "rx:capture:group-9-not-stored-in-TX.9"
 				}
 				return "rx:capture:" + r
 			}
 			// verdict accepted by no reading
-			if bin && plain != nil {
-				for _, bytes := range []bool{true, false} {
-					pr := rxReading{re: plain, bytes: bytes}
-					if pr.run(in).match == o.Res {
-						return "rx:binary-pattern-evaluated-without-the-dotall-flag"
-					}
-				}
-			}
 			if plain != nil && plain.MatchString(in) == o.Res && strings.Contains(in, "\n") {
 				return "rx:dot-does-not-match-newline"
 			}
-			all := exps[0].match
-			return "rx:" + fnfp(all)
+			return "rx:" + fnfp(exps[0].match)
 		}
 		return w
 	}
 	return sp
+}
+
+// nullableLoop: the pattern repeats (*, +, {n,}) a body that can match the
+// empty string, the construct whose priority order Go's regexp corrected
+// (golang/go#46123) after rsc.io/binaryregexp was forked from it.
+func nullableLoop(pat string) bool {
+	re, err := syntax.Parse(pat, syntax.Perl)
+	if err != nil {
+		return false
+	}
+	var nullable func(r *syntax.Regexp) bool
+	nullable = func(r *syntax.Regexp) bool {
+		switch r.Op {
+		case syntax.OpEmptyMatch, syntax.OpBeginLine, syntax.OpEndLine, syntax.OpBeginText, syntax.OpEndText,
+			syntax.OpWordBoundary, syntax.OpNoWordBoundary, syntax.OpStar, syntax.OpQuest:
+			return true
+		case syntax.OpLiteral:
+			return len(r.Rune) == 0
+		case syntax.OpCapture, syntax.OpPlus:
+			return nullable(r.Sub[0])
+		case syntax.OpRepeat:
+			return r.Min == 0 || nullable(r.Sub[0])
+		case syntax.OpConcat:
+			for _, s := range r.Sub {
+				if !nullable(s) {
+					return false
+				}
+			}
+			return true
+		case syntax.OpAlternate:
+			for _, s := range r.Sub {
+				if nullable(s) {
+					return true
+				}
+			}
+		}
+		return false
+	}
+	var walk func(r *syntax.Regexp) bool
+	walk = func(r *syntax.Regexp) bool {
+		switch r.Op {
+		case syntax.OpStar, syntax.OpPlus, syntax.OpRepeat:
+			if nullable(r.Sub[0]) {
+				return true
+			}
+		}
+		for _, s := range r.Sub {
+			if walk(s) {
+				return true
+			}
+		}
+		return false
+	}
+	return walk(re)
 }
